@@ -1,0 +1,58 @@
+//go:build verif
+
+// Verification contracts for the SQL server's segment pruning and row filter (C36; comment-only; read by /verif/govc).
+// This file contains no executable code.
+//
+// Reading of the statistics of a discovery.SegmentRef (what discovery promises): when MinOffset / MaxOffset /
+// MinTimestamp / MaxTimestamp are present, every record of the segment has its offset / timestamp inside them.
+// A record "can be in" a segment (statHolds*) when it does not contradict a present statistic; a query bound
+// (nil = unbounded) is satisfied by in*Bounds.
+
+package server
+
+//@ spec func inBounds(v int64, min *int64, max *int64) bool = (min == nil || v >= *min) && (max == nil || v <= *max)
+//@ spec func statHoldsOffset(seg discovery.SegmentRef, o int64) bool = (seg.MinOffset == nil || *seg.MinOffset <= o) && (seg.MaxOffset == nil || o <= *seg.MaxOffset)
+//@ spec func statHoldsTimestamp(seg discovery.SegmentRef, t int64) bool = (seg.MinTimestamp == nil || *seg.MinTimestamp <= t) && (seg.MaxTimestamp == nil || t <= *seg.MaxTimestamp)
+
+// Pruning soundness (the property): a segment in which some record can satisfy the query bounds is never skipped.
+// Pruning exactness (strength): it is skipped exactly when a present statistic and a present bound are disjoint.
+//@ func segmentMatchesOffsets
+//@   nullable min, max
+//@   ensures [C36.offset_prune_sound] (exists o int64 :: statHoldsOffset(segment, o) && inBounds(o, min, max)) ==> result
+//@   ensures [C36.offset_prune_exact] result == !((min != nil && segment.MaxOffset != nil && *segment.MaxOffset < *min) || (max != nil && segment.MinOffset != nil && *segment.MinOffset > *max))
+//@
+//@ func segmentMatchesTimestamps
+//@   nullable min, max
+//@   ensures [C36.time_prune_sound] (exists t int64 :: statHoldsTimestamp(segment, t) && inBounds(t, min, max)) ==> result
+//@   ensures [C36.time_prune_exact] result == !((min != nil && segment.MaxTimestamp != nil && *segment.MaxTimestamp < *min) || (max != nil && segment.MinTimestamp != nil && *segment.MinTimestamp > *max))
+
+// ---- filterSegments: which segments are scanned ----
+// segMayHold: the segment belongs to the queried topic/partition and some record of it can satisfy the offset and
+// the time bounds. segKept: the exact selection rule (topic, partition, no disjoint statistic).
+//@ spec func segMayHold(parsed sql.Query, seg discovery.SegmentRef, tmin *int64, tmax *int64) bool = seg.Topic == parsed.Topic && (parsed.Partition == nil || seg.Partition == *parsed.Partition) && (exists o int64 :: statHoldsOffset(seg, o) && inBounds(o, parsed.OffsetMin, parsed.OffsetMax)) && (exists t int64 :: statHoldsTimestamp(seg, t) && inBounds(t, tmin, tmax))
+//@ spec func offDisjoint(seg discovery.SegmentRef, min *int64, max *int64) bool = (min != nil && seg.MaxOffset != nil && *seg.MaxOffset < *min) || (max != nil && seg.MinOffset != nil && *seg.MinOffset > *max)
+//@ spec func tsDisjoint(seg discovery.SegmentRef, min *int64, max *int64) bool = (min != nil && seg.MaxTimestamp != nil && *seg.MaxTimestamp < *min) || (max != nil && seg.MinTimestamp != nil && *seg.MinTimestamp > *max)
+//@ spec func segKept(parsed sql.Query, seg discovery.SegmentRef, tmin *int64, tmax *int64) bool = seg.Topic == parsed.Topic && (parsed.Partition == nil || seg.Partition == *parsed.Partition) && !offDisjoint(seg, parsed.OffsetMin, parsed.OffsetMax) && !tsDisjoint(seg, tmin, tmax)
+
+// gsrc[j] = index in `segments` of result element j (strictly increasing: the result is a subsequence, order kept);
+// gdst[i] = index in the result of kept input segment i. Both are ghost maps written at the one append.
+//@ func filterSegments
+//@   nullable timeMin, timeMax
+//@   ghost gsrc (Array Int Int) = arbitraryIntMap()
+//@   ghost gdst (Array Int Int) = arbitraryIntMap()
+//@   at append#1 before set gsrc = store(gsrc, len(out), rangeindex)
+//@   at append#1 before set gdst = store(gdst, rangeindex, len(out))
+//@   ensures [C36.filter_never_drops_matching] forall i int :: 0 <= i && i < len(segments) && segMayHold(parsed, segments[i], timeMin, timeMax) ==> (exists j int :: 0 <= j && j < len(result) && result[j] == segments[i])
+//@   ensures [C36.filter_is_subsequence] forall j int :: 0 <= j && j < len(result) ==> 0 <= gsrc[j] && gsrc[j] < len(segments) && result[j] == segments[gsrc[j]] && segKept(parsed, segments[gsrc[j]], timeMin, timeMax) && (j > 0 ==> gsrc[j-1] < gsrc[j])
+//@   ensures [C36.filter_subsequence_complete] forall i int :: 0 <= i && i < len(segments) && segKept(parsed, segments[i], timeMin, timeMax) ==> 0 <= gdst[i] && gdst[i] < len(result) && gsrc[gdst[i]] == i
+//@   ensures [C36.filter_input_unchanged] forall i int :: 0 <= i && i < len(segments) ==> segments[i] == old(segments[i])
+//@   loop 1 invariant -1 <= rangeindex && rangeindex < len(segments) && len(out) <= rangeindex + 1 && base(out) != base(segments)
+//@   loop 1 invariant forall i int :: 0 <= i && i < len(segments) ==> segments[i] == old(segments[i])
+//@   loop 1 invariant forall j int :: 0 <= j && j < len(out) ==> 0 <= gsrc[j] && gsrc[j] <= rangeindex && out[j] == segments[gsrc[j]] && segKept(parsed, segments[gsrc[j]], timeMin, timeMax) && (j > 0 ==> gsrc[j-1] < gsrc[j])
+//@   loop 1 invariant forall i int :: 0 <= i && i <= rangeindex && segKept(parsed, segments[i], timeMin, timeMax) ==> 0 <= gdst[i] && gdst[i] < len(out) && gsrc[gdst[i]] == i
+
+// ---- TAIL n: the last n rows, in order ----
+//@ func appendTailRow
+//@   ensures [C36.tail_nonpositive_limit] limit <= 0 ==> sameSlice(result, rows)
+//@   ensures [C36.tail_grows_until_limit] limit > 0 && len(rows) < limit ==> len(result) == len(rows) + 1 && result[len(rows)] == row && (forall k int :: 0 <= k && k < len(rows) ==> result[k] == old(rows[k]))
+//@   ensures [C36.tail_shifts_at_limit] limit > 0 && len(rows) >= limit ==> len(result) == len(rows) && result[len(rows)-1] == row && (forall k int :: 0 <= k && k < len(rows) - 1 ==> result[k] == old(rows[k+1]))
